@@ -70,6 +70,40 @@ pub fn planar_family(nmax: usize) -> Vec<(String, Diagram)> {
     out
 }
 
+/// The repository's knot/link table (yui-link/resources/links, read through `Link::load`): every
+/// prime knot `c_k` with c <= max_crossings and, if `links`, every table link `L{c}a{k}` / `L{c}n{k}`
+/// with c <= max_crossings, as reference diagrams rebuilt from the PD code.  Used where the oracle
+/// is relational (no reference cube needed) or the cube is still affordable.
+pub fn table_family(max_crossings: usize, links: bool) -> Vec<(String, Diagram)> {
+    let mut out = vec![];
+    let mut push = |name: String| -> bool {
+        match Link::load(&name) {
+            Ok(l) => {
+                if let Some((d, _)) = Diagram::from_pd(&pd_of(&l)) {
+                    out.push((format!("table:{name}"), d));
+                }
+                true
+            }
+            Err(_) => false,
+        }
+    };
+    for c in 2..=max_crossings {
+        let mut k = 1;
+        while push(format!("{c}_{k}")) {
+            k += 1;
+        }
+        if links {
+            for kind in ["a", "n"] {
+                let mut k = 1;
+                while push(format!("L{c}{kind}{k}")) {
+                    k += 1;
+                }
+            }
+        }
+    }
+    out
+}
+
 /// stable textual id of a diagram (its PD code)
 pub fn code_string(d: &Diagram) -> String {
     format!("{:?}", d.pd()).replace(' ', "")
